@@ -123,9 +123,30 @@ def _find_in(toks, lo, hi, kind, name):
     return None
 
 
-def extract(path, kind, name, impl_of=None):
+def extract(path, kind, name, impl_of=None, in_fn=None):
     src = open(path, encoding="utf-8").read()
-    a, b, h = find_item(src, kind, name, impl_of)
+    if in_fn:
+        # an item declared inside the body of function `in_fn` (Verus rejects items inside bodies; the item is
+        # verified as a free-standing one and the enclosing function is reached through a statement region)
+        oa, ob, oh = find_item(src, "fn", in_fn, impl_of)
+        toks = [t for t in lex(src) if t.kind != "ws"]
+        lo = next(i for i, t in enumerate(toks) if t.start >= oa)
+        hi = next(i for i, t in enumerate(toks) if t.end >= ob)
+        # body brace of the outer fn
+        j = lo
+        d = 0
+        while not (toks[j].kind == "punct" and toks[j].text == "{" and d == 0):
+            if toks[j].text in ("(", "["):
+                d += 1
+            elif toks[j].text in (")", "]"):
+                d -= 1
+            j += 1
+        r = _find_in(toks, j + 1, hi, kind, name)
+        if r is None:
+            raise ExtractError("item %s %s not found inside fn %s" % (kind, name, in_fn))
+        a, b, h = toks[r[0]].start, toks[r[1]].end, toks[r[2]].start
+    else:
+        a, b, h = find_item(src, kind, name, impl_of)
     a = src.rfind("\n", 0, a) + 1 if src[src.rfind("\n", 0, a) + 1:a].strip() == "" else a
     line_a = src.count("\n", 0, a) + 1
     line_b = src.count("\n", 0, b) + 1
@@ -474,15 +495,23 @@ def prepass(text, opaque=None, log=None):
         if "stmt_from" in o:
             # a whole block statement: from the head tokens through the brace block they open
             head = [t.text for t in code_tokens(o["stmt_from"])]
-            i = _find_seq(texts, head)
-            if i < 0:
-                raise ExtractError("O1: opaque statement %r not found" % o["stmt_from"])
-            if _find_seq(texts, head, i + 1) >= 0:
-                raise ExtractError("O1: opaque statement %r is ambiguous" % o["stmt_from"])
+            i = -1
+            for _ in range(int(o.get("nth", 0)) + 1):
+                i = _find_seq(texts, head, i + 1)
+                if i < 0:
+                    raise ExtractError("O1: opaque statement %r (occurrence %s) not found" % (o["stmt_from"], o.get("nth", 0)))
+            if "nth" not in o and _find_seq(texts, head, i + 1) >= 0:
+                raise ExtractError("O1: opaque statement %r is ambiguous (give nth)" % o["stmt_from"])
             b = i + len(head) - 1
             if texts[b] != "{":
                 raise ExtractError("O1: stmt_from must end with the opening brace")
             e = match_close(toks, b)
+            # an if statement extends over its else / else-if chain
+            while e + 1 < len(toks) and texts[e + 1] == "else":
+                b2 = e + 2
+                while texts[b2] != "{":
+                    b2 += 1
+                e = match_close(toks, b2)
             orig = text[toks[i].start:toks[e].end]
             edits.append((toks[i].start, toks[e].end, o["call"]))
             if log is not None:
@@ -495,7 +524,11 @@ def prepass(text, opaque=None, log=None):
             i = _find_seq(texts, pat, pos)
             if i < 0:
                 break
-            edits.append((toks[i].start, toks[i + len(pat) - 1].end, o["call"]))
+            a_, b_ = toks[i].start, toks[i + len(pat) - 1].end
+            if any(a_ < e2 and s2 < b_ for s2, e2, _ in edits):
+                pos = i + 1   # inside a span an earlier entry already abstracts
+                continue
+            edits.append((a_, b_, o["call"]))
             hits += 1
             pos = i + len(pat)
         if hits == 0:
@@ -534,6 +567,35 @@ def prepass(text, opaque=None, log=None):
                     if log is not None:
                         log.append({"rule": "N4", "base": base, "k": k})
             i = j
+        i += 1
+    # N3: else-less let-chain  `if let P = E && C { B }`  =>  `if let P = E { if C { B } }`
+    i = 0
+    while i + 1 < len(toks):
+        if texts[i] == "if" and texts[i + 1] == "let" and (i == 0 or texts[i - 1] != "else"):
+            d = 0
+            j = i + 2
+            amp = None
+            while j < len(toks):
+                x = texts[j]
+                if x in ("(", "["):
+                    d += 1
+                elif x in (")", "]"):
+                    d -= 1
+                elif x == "{" and d == 0:
+                    break
+                elif x == "&&" and d == 0 and amp is None:
+                    amp = j
+                j += 1
+            if amp is not None and j < len(toks):
+                bc = match_close(toks, j)
+                if bc + 1 < len(toks) and texts[bc + 1] == "else":
+                    raise ExtractError("N3: let-chain with else is not supported")
+                head = text[toks[i + 1].start:toks[amp - 1].end]      # `let P = E`
+                cond = text[toks[amp + 1].start:toks[j - 1].end]       # C
+                edits.append((toks[amp - 1].end, toks[j].end, " { if %s {" % cond))
+                edits.append((toks[bc].end, toks[bc].end, " }"))
+                if log is not None:
+                    log.append({"rule": "N3", "head": head, "cond": cond})
         i += 1
     # N2b
     i = 0
@@ -600,6 +662,25 @@ def invert_prepass(s, rules):
             if i < 0:
                 raise ExtractError("N4 inverse: slice %r not found" % " ".join(pat))
             s = s[:i] + base + [".", "iter", "(", ")", ".", "skip", "(", r["k"], ")"] + s[i + len(pat):]
+        elif r["rule"] == "N3":
+            head = [t.text for t in code_tokens(r["head"])]
+            cond = [t.text for t in code_tokens(r["cond"])]
+            pat = ["if"] + head + ["{", "if"] + cond + ["{"]
+            i = _find_seq(s, pat)
+            if i < 0:
+                raise ExtractError("N3 inverse: nested form of %r not found" % r["head"])
+            d = 0
+            e = i + len(pat) - 1
+            for e in range(i + len(pat) - 1, len(s)):
+                if s[e] in ("(", "[", "{"):
+                    d += 1
+                elif s[e] in (")", "]", "}"):
+                    d -= 1
+                    if d == 0:
+                        break
+            if s[e + 1] != "}":
+                raise ExtractError("N3 inverse: outer block does not close right after the inner one")
+            s = s[:i] + ["if"] + head + ["&&"] + cond + ["{"] + s[i + len(pat):e] + ["}"] + s[e + 2:]
         elif r["rule"] == "N2b":
             pat = ["else", "{", "(", ")", ";", "}"]
             i = _find_seq(s, pat)
